@@ -34,8 +34,16 @@ def run_scans(jobs, procs=None):
 
 def cfg_key(state):
     d = {"geometry": state.get("geometry"), "t": E.qf(state["t"]) if "t" in state else None}
+    def val(v):
+        if isinstance(v, (int, str)):
+            return v
+        if isinstance(v, list) and len(v) == 2 and all(isinstance(x, int) for x in v):
+            return v[0] / v[1]
+        if isinstance(v, list):
+            return [val(x) for x in v]
+        return v
     for k, v in state.get("par", {}).items():
-        d[k] = v if isinstance(v, (int, str)) else E.qf(v)
+        d[k] = val(v)
     return d
 
 
